@@ -61,7 +61,7 @@ func checkC16(c *Ctx) {
 		RequireFacts(c, p, "C16.guard", fn, AcceptNilErr, nil, []Req{
 			{"InRange(i)>=0", `^0 <= p0$`},
 			{"InRange(i)<2^depth", `^\(p0>>len\(pr\)\) == 0$|^p0 < \(1<<len\(pr\)\)$`},
-			{"root-compared", `^p2 == .*(?:` + rootFns + `)\(|(?:` + rootFns + `)\(.* == p2$`},
+			{"root-compared", `^p2 == .*(?:` + rootFns + `)\(|(?:` + rootFns + `)\(.* == p2$|^local:Hash == p2$|^p2 == local:Hash$`}, // the running node kept in an address-taken local
 		})
 	} else {
 		c.Undecided("anchor vortex.MerkleProof.Verify not found")
